@@ -229,14 +229,108 @@ def wait_mid_second():
         n += 1
 
 
-def observed_request(drv, config, cachepath, data, tls):
+class SlowReader:
+    """The client's side of the connection as the server reads it: the request line arrives at once, the rest of
+    what the client sends (header block, Spartan body) only after a pause -- `pause()` is called once, before the
+    second read.  Everything else is io.BytesIO."""
+
+    def __init__(self, data, pause):
+        import io
+        self._b = io.BytesIO(data)
+        self._pause = pause
+        self._reads = 0
+        self.fired = False
+
+    def set_logger(self, logger, outer, mine):
+        self._lg = (logger, outer, mine)
+
+    def _tick(self):
+        self._reads += 1
+        if self._reads == 2 and not self.fired:
+            self.fired = True
+            lg = getattr(self, "_lg", None)
+            if lg:
+                lg[0].log = lg[1]
+            try:
+                self._pause()
+            finally:
+                if lg:
+                    lg[0].log = lg[2]
+
+    def readline(self, *a):
+        self._tick()
+        return self._b.readline(*a)
+
+    def read(self, *a):
+        self._tick()
+        return self._b.read(*a)
+
+    def __getattr__(self, name):
+        return getattr(self._b, name)
+
+
+def serve_rfile(drv, config, rfile, tls=False):
+    """drv.serve_once with a caller-supplied rfile (same real handler, same fake socket objects)."""
+    wfile = drv.KeepBytesIO()
+    req = (drv.MockSSLRequest if tls else drv.MockRequest)(rfile, wfile)
+    h = drv.Handler(req, ("10.77.77.77", "7777"), drv.FakeServer(config, port=getattr(drv, "SERVER_PORT", 70)))
+    mylog = []
+    rfile_logger = getattr(rfile, "set_logger", None)
+    old_log = drv.logger.log
+    drv.logger.log = mylog.append
+    if rfile_logger:
+        rfile_logger(drv.logger, old_log, mylog.append)      # what happens during the pause logs elsewhere
+    exc = None
+    t0 = time.time()
+    try:
+        try:
+            h.handle()
+        except BaseException as e:   # noqa
+            exc = type(e).__name__ + ": " + str(e)
+        try:
+            h.finish()
+        except BaseException as e:   # noqa
+            if exc is None and not isinstance(e, ValueError):
+                exc = "finish:" + type(e).__name__ + ": " + str(e)
+    finally:
+        drv.logger.log = old_log
+    out = getattr(wfile, "final", None)
+    if out is None:
+        try:
+            out = wfile.getvalue()
+        except Exception:
+            out = b""
+    return {"out": drv.b2s(out), "log": mylog, "exc": exc, "secs": round(time.time() - t0, 4)}
+
+
+def observed_request(drv, config, cachepath, data, tls, pause=None):
+    """pause: called once while the server waits for the rest of the client's request (slow client)."""
     global _watch
     wait_mid_second()
     before = file_state(cachepath)
     now_ms = int(time.time() * 1000)
     _watch = {"path": os.fsencode(cachepath), "r": False, "w": False}
+    fired = {"at": None, "secs": 0.0}
     try:
-        r = drv.serve_once(config, data, tls=tls)
+        if pause is None:
+            r = drv.serve_once(config, data, tls=tls)
+        else:
+            def paused():
+                global _watch
+                mine, _watch = _watch, None          # what happens during the pause is not this request's doing
+                t0 = time.time()
+                try:
+                    pause()
+                finally:
+                    _watch = mine
+                    fired["at"] = time.time()
+                    fired["secs"] = fired["at"] - t0
+            rd = SlowReader(data, paused)
+            r = serve_rfile(drv, config, rd, tls=tls)
+            r["secs"] = max(0.0, r["secs"] - fired["secs"])
+            if fired["at"] is not None:
+                now_ms = int(fired["at"] * 1000)       # the request reaches the cache after the pause
+                before = file_state(cachepath) if False else before
     finally:
         w, _watch = _watch, None
     after = file_state(cachepath)
@@ -244,7 +338,7 @@ def observed_request(drv, config, cachepath, data, tls):
     crashed = bool(r["exc"]) or (not out and any("EXCEPTION" in x for x in r["log"]))
     return {"now_ms": now_ms, "hash": digest(out), "len": len(out), "head": drv.b2s(out[:160]),
             "exc": r["exc"], "crashed": crashed, "log": r["log"][-2:], "opened_r": w["r"], "opened_w": w["w"],
-            "before": before, "after": after, "secs": r["secs"]}
+            "before": before, "after": after, "secs": r["secs"], "paused": fired["at"] is not None}
 
 
 def c10_history(job, drv):
@@ -306,7 +400,42 @@ def c10_history(job, drv):
                             "size": len(b) if cut is not None else None})
             elif k in ("list", "probe"):
                 rq = (protokeys if k == "list" else job["probekeys"])[o["key"]]
-                if o.get("fault"):
+                if o.get("slow"):
+                    # a slow client: after the request line the clock advances by s seconds; meanwhile another client may
+                    # list the directory and the directory may change
+                    sl = o["slow"]
+                    inner = []
+                    st_ = {"before": None}
+
+                    def pause(sl=sl, inner=inner, st_=st_):
+                        nonlocal shift
+                        s_ = int(sl["s"])
+                        if sl.get("real"):
+                            # the clock really advances: whatever the code sampled before the pause stays behind
+                            time.sleep(s_)
+                            wait_mid_second()
+                        else:
+                            if s_:
+                                age_tree(w.root, s_)
+                                age_tree(mirror, s_)
+                            shift += s_
+                        if sl.get("nested_key"):
+                            rq2 = protokeys[sl["nested_key"]]
+                            r2 = observed_request(drv, w.config, cachepath, drv.s2b(rq2["data"]), rq2["tls"])
+                            r2.update({"op": "list", "key": sl["nested_key"], "shift_s": shift})
+                            inner.append(r2)
+                        if sl.get("actions"):
+                            apply_actions(w.root, sl["actions"], drv)
+                            apply_actions(mirror, sl["actions"], drv)
+                            inner.append({"op": "mut", "now_ms": int(time.time() * 1000), "shift_s": shift, "refs": mirror_refs()})
+                        st_["before"] = file_state(cachepath)
+
+                    r = observed_request(drv, w.config, cachepath, drv.s2b(rq["data"]), rq["tls"], pause=pause)
+                    if r["paused"]:
+                        r["before"] = st_["before"]
+                        res.extend(inner)
+                    r["slow"] = sl
+                elif o.get("fault"):
                     # the cache write of this request fails after `room` bytes (disk full, quota, EFBIG, EIO)
                     with write_fault("/.cache.pygopherd.dir", int(o["fault"]["room"]), int(o["fault"]["errno"])):
                         r = observed_request(drv, w.config, cachepath, drv.s2b(rq["data"]), rq["tls"])
@@ -324,5 +453,75 @@ def c10_history(job, drv):
         w.close()
 
 
+def c10_zip(job, drv):
+    """A listing is never served from a cache file the server did not write for that directory: archives that carry a
+    `.cache.pygopherd.dir` member (packed from a directory the server had listed) must list exactly like the same
+    archive without that member, whatever the member's timestamp and the configured lifetime."""
+    import io
+    import zipfile
+    overrides = {k: dict(v) for k, v in (job.get("config") or {}).items()}
+    w = drv.World({"tree": job["tree"], "config": overrides})
+    try:
+        mirror = os.path.join(w.tmp, "mirror", "root")
+        os.makedirs(mirror)
+        # real cache files, written by the server itself for real directories
+        caches = {}
+        cfg180 = drv.make_config(w.root, dict(overrides, **{"handlers.dir.DirHandler": {"cachetime": "180"}}))
+        for label, sel, extra in job["cache_sources"]:
+            xp = None
+            if extra:
+                xp = os.path.join(w.root, sel.strip("/"), extra)
+                with open(xp, "w") as f:
+                    f.write("a file that is not in the archive\n")
+            rq = job["source_requests"][sel]
+            drv.serve_once(cfg180, drv.s2b(rq["data"]), tls=rq["tls"])
+            with open(os.path.join(w.root, sel.strip("/"), ".cache.pygopherd.dir"), "rb") as f:
+                caches[label] = f.read()
+            if xp:
+                os.unlink(xp)
+        now = time.time()
+        stamps = {"now": time.localtime(now)[:6], "future": time.localtime(now + 86400)[:6],
+                  "a minute ago": time.localtime(now - 60)[:6], "old": (2001, 2, 3, 4, 5, 6)}
+        bad = []
+        trials = 0
+
+        def build(dest, cache_bytes, stamp):
+            buf = io.BytesIO()
+            with zipfile.ZipFile(buf, "w") as z:
+                for name, data in job["members"]:
+                    z.writestr(zipfile.ZipInfo(name, (2020, 1, 2, 3, 4, 6)), data)
+                if cache_bytes is not None:
+                    z.writestr(zipfile.ZipInfo(job["cache_member"], stamp), cache_bytes)
+            for fn in os.listdir(dest):
+                if fn.startswith(".cache.pygopherd.zip3"):
+                    os.unlink(os.path.join(dest, fn))
+            with open(os.path.join(dest, job["zipname"]), "wb") as f:
+                f.write(buf.getvalue())
+
+        for life in job["lifetimes"]:
+            ov = dict(overrides, **{"handlers.dir.DirHandler": {"cachetime": str(life)}})
+            cfg, cfg_m = drv.make_config(w.root, ov), drv.make_config(mirror, ov)
+            for label, cbytes in caches.items():
+                for sname, stamp in stamps.items():
+                    build(w.root, cbytes, stamp)
+                    build(mirror, None, stamp)
+                    for key, rq in job["requests"].items():
+                        trials += 1
+                        drv.reset_lazies()
+                        r = drv.serve_once(cfg, drv.s2b(rq["data"]), tls=rq["tls"])
+                        drv.reset_lazies()
+                        m = drv.serve_once(cfg_m, drv.s2b(rq["data"]), tls=rq["tls"])
+                        a, b = mask(drv.s2b(r["out"])), mask(drv.s2b(m["out"]))
+                        if a != b or r["exc"]:
+                            bad.append({"lifetime_s": life, "cache_member_from": label, "member_timestamp": sname, "request": key,
+                                        "got": drv.b2s(a[:400]), "expected": drv.b2s(b[:400]), "exception": r["exc"],
+                                        "log": r["log"][-2:]})
+        drv.reset_lazies()
+        return {"trials": trials, "bad": bad[:12], "nbad": len(bad)}
+    finally:
+        w.close()
+
+
 def register(OPS, drv):
+    OPS["c10_zip"] = lambda job: c10_zip(job, drv)
     OPS["c10_history"] = lambda job: c10_history(job, drv)
